@@ -225,8 +225,19 @@ fn ill_conditioned(c: &LinCase) -> bool {
 /// Exact semantic equivalence of two linear models over the same variables: same objective and
 /// every row and bound of each is implied by the other (decided with the exact MILP oracle).
 /// Used only to *classify* a syntactic difference as harmless, never to accept one.
+thread_local! {
+    /// set when an equivalence question was too large for the exact oracle (the case is then skipped)
+    static UNDECIDED: std::cell::Cell<bool> = const { std::cell::Cell::new(false) };
+}
+
 fn equivalent(a: &LinCase, b: &LinCase) -> bool {
     use crate::oracle::rat::{big, solve_milp, Big, Verdict};
+    // one exact MILP per row and bound of either model: exponential in the discrete variables
+    let discrete = |c: &LinCase| c.vars.iter().filter(|v| v.1.is_discrete()).count();
+    if discrete(a).max(discrete(b)) > 9 || a.rows.len().max(b.rows.len()) > 30 {
+        UNDECIDED.with(|u| u.set(true));
+        return false;
+    }
     let (mut a, mut b) = (canonical(a), canonical(b));
     // a variable that one side no longer mentions is unconstrained there: add it with the domain
     // the other side declares, so that the other side's rows on it must follow from that domain
@@ -351,6 +362,7 @@ impl Prop for C12 {
         "compiled models from the C01/C02 generator (non-affine operators, logic under arithmetic, named/unnamed/duplicate-named rows, tightened and infinite domains, all three objective kinds) plus affine models whose coefficients, right-hand sides and offsets span 1e-9..1e9 in both signs. (1) Model::to_string() must parse, type-check, transform and linearize to the same linear model as the original (variables, domains, objective, offset, rows as a multiset); (2) LinearModel::to_string() must do the same and rendering the re-compiled model must give the same text byte for byte. Non-trivial = model has a non-affine construct, or a coefficient outside [0.01, 100], or a negative constant. Distinct = distinct model text.".into()
     }
     fn check(&self, case: &ModelCase) -> Outcome {
+        UNDECIDED.with(|u| u.set(false));
         let model = case.to_rooc();
         let t1 = model.to_string();
         let lin = match Linearizer::linearize(model) {
@@ -426,6 +438,11 @@ impl Prop for C12 {
             }
         }
         let mag = lc.rows.iter().flat_map(|r| r.coef.iter()).chain(lc.obj.iter()).any(|c| *c != 0.0 && (c.abs() < 0.01 || c.abs() > 100.0 || *c < 0.0));
+        if !fails.is_empty() && UNDECIDED.with(|u| u.get()) {
+            // a difference was seen but whether it is the recorded "equivalent model" finding needs
+            // an exact equivalence proof that is too large: inconclusive for this case, counted
+            return Outcome::Skip("difference not classified: equivalence too large for the exact oracle".into());
+        }
         Outcome::from_failures(fails, case.has_nonaffine() || mag, vec![])
     }
 }
